@@ -264,7 +264,8 @@ func roundTrip[T any](run *vk.Run, r *rand.Rand, kind, scratch string, value T, 
 		pre, _ := state.Insert(key, value, state.WithEntityType(wantType))
 		b, _ := json.Marshal(pre)
 		if err := mat.Apply(&ebu.StoredEvent{Offset: "pre", Type: "state.ChangeMessage", Data: b}); err != nil {
-			panic(err)
+			viol("apply-error", fmt.Sprintf("Apply of an insert built by the helper failed: %v", err))
+			return
 		}
 	}
 	for _, e := range evs {
